@@ -303,6 +303,34 @@ def pureLine (ws : List String) : Option String :=
     | _, _, _ => none
   | _ => none
 
+/-! ### huge wheels, sequential:  `huge <n> <step> <pre> <ops>`  = `pre` whole ticks, then every op (n<d> NewTimer,
+r / r<x> Reset) followed by ticks until the timer's channel is closed;  observation `<i>=L<ticks at the call>,f<closing tick>`
+or `<i>=P`.  Closed form `fire = L + k + 1` (C03_fire_tick_sequential), cross-checked against the LTS for small cases. -/
+def hugeLine (ws : List String) : Option String :=
+  match ws with
+  | [n, st, pre, ops] =>
+    match parseNat? n, parseNat? st, parseNat? pre, parseOps ops with
+    | some n, some st, some pre, some ops =>
+      if n = 0 ∨ st = 0 then none else
+      let rec go (ops : List Op) (i : Nat) (L : Nat) (base : Int) (acc : List String) : List String :=
+        match ops with
+        | [] => acc.reverse
+        | op :: rest =>
+          let (d, base') := match op with
+            | .new d => (d, d)
+            | .after d => (d, d)
+            | .reset arg => (resetInterval st base arg, base)
+          if rangePanics st n d then (s!"{i}=P" :: acc).reverse
+          else
+            let k := bucketIndex st d
+            let fire := L + k + 1
+            let ok := if n ≤ 8 ∧ L ≤ 24 then seqFire n st L d == some fire else true
+            if ok then go rest (i + 1) fire base' (s!"{i}=L{L},f{fire}" :: acc)
+            else (s!"{i}=model-internal-mismatch" :: acc).reverse
+      some (joinSp (go ops 0 pre 0 []))
+    | _, _, _, _ => none
+  | _ => none
+
 /-! ### constructor:  `ctor <step> <n>`  = NewWheel(step, n);  observation `P` (panic) or `ok` -/
 def ctorLine (ws : List String) : Option String :=
   match ws with
@@ -328,6 +356,10 @@ def monitor (_ : Unit) (line : String) : Unit × String :=
     match pureLine ws with
     | some m => ((), if m = impl then "ok" else "reject expected " ++ m)
     | none => ((), "reject bad-script")
+  | "huge" :: ws =>
+    match hugeLine ws with
+    | some m => ((), if m = impl then "ok" else "reject expected " ++ m)
+    | none => ((), "reject bad-script")
   | "ctor" :: ws =>
     match ctorLine ws with
     | some m => ((), if m = impl then "ok" else "reject expected " ++ m)
@@ -339,6 +371,7 @@ def runOnly (_ : Unit) (line : String) : Unit × String :=
   | "race" :: ws => ((), (raceLine ws).getD "bad-script")
   | "time" :: ws => ((), timeRun ws)
   | "pure" :: ws => ((), (pureLine ws).getD "bad-script")
+  | "huge" :: ws => ((), (hugeLine ws).getD "bad-script")
   | "ctor" :: ws => ((), (ctorLine ws).getD "bad-script")
   | [] => ((), "")
   | _ => ((), "bad-script")
